@@ -81,8 +81,8 @@ def conf_dict_to_tlv(conf_dict: ConfDict) -> list[bytes]:
             tlv_blocks[-1] += last_postface + preface + data
             last_preface, last_postface = preface, postface
 
-    if len(tlv_blocks[-1]) == 0:
-        tlv_blocks.pop()
+    if len(tlv_blocks[0]) == 0:
+        tlv_blocks.pop(0)
     return tlv_blocks
 
 
